@@ -72,6 +72,19 @@ func xgeo15(seed uint64) string {
 	r := &rng{s: seed}
 	latA, lonA := randLatLon(r)
 	latB, lonB := randLatLon(r)
+	if r.coin(0.2) {
+		// exactly antipodal pairs on the whole-degree and on the decimal lattice: the haversine may round to 1 + 2^-52
+		if r.coin(0.5) {
+			latA, lonA = float64(r.rangeI(-89, 89)), float64(r.rangeI(-179, 179))
+		} else {
+			latA, lonA = float64(r.rangeI(-8900, 8900))/100, float64(r.rangeI(-17900, 17900))/100
+		}
+		latB = -latA
+		lonB = lonA + 180
+		if lonB > 180 {
+			lonB = lonA - 180
+		}
+	}
 	d := geo.DistanceTo(latA, lonA, latB, lonB)
 	d2 := geo.DistanceTo(latB, lonB, latA, lonA)
 	if d != d2 && math.Abs(d-d2) > tolDist(d) {
